@@ -271,6 +271,8 @@ def unit_stack(name):
 
 def unit_structure(S):
     """No class in lerax overrides step/reset, so the generic proof covers every environment and stack."""
+    from contracts import C13
+    C13.timelimit_ctor_obligation(S)
     import importlib, pkgutil, inspect, lerax
     S.under_contract(F_STEP, F_RESET)
     offenders = []
